@@ -504,6 +504,44 @@ def run_extra(ck, standalone=False):
                               "statuses": r["statuses"], "outcome": r["outcome"], "diff": r.get("diff"), "stderr": r["stderr"],
                               "stack": ["%s:%d->%s" % e for e in chains[k]], "row": list(tk) if tk else None,
                               "fault_op": sc["script"][oi] if oi is not None and oi < len(sc["script"]) else None})
+        # widened search: a dropped status is often noticed by a LATER operation on the same node (which then reports an
+        # error, so the session as a whole is "reported").  For every target row that was reached here without a failing
+        # input, the session is cut after the faulted operation (+ the final close) and the same fault is injected again.
+        if sc["script"][-1].startswith(("close", "compress")):
+            for tkey, info_t in per_target.items():
+                if info_t["problems"] or sc["name"] not in info_t["scenarios"]:
+                    continue
+                pos = sorted(set(k for (k, kind), ts in why.items() if tkey in ts))
+                seen_ops, tj = set(), []
+                for k in pos:
+                    oi = op_index(k)
+                    if oi is None or oi >= nops - 2 or (oi, calls[k]["name"]) in seen_ops:
+                        continue
+                    seen_ops.add((oi, calls[k]["name"]))
+                    tj.append((k, oi))
+                for k, oi in tj[: (8 if big or info_t["kind"] == "bad" else 3)]:
+                    sc2 = dict(sc, script=sc["script"][: oi + 1] + [sc["script"][-1]], name=sc["name"] + "-cut%d" % oi)
+                    d2 = os.path.join(sw, "cutref%d" % oi)
+                    shutil.rmtree(d2, ignore_errors=True)
+                    shutil.copytree(base, d2)
+                    st2, oc2, _ = session(h, ipso, d2, sc2["script"])
+                    ideal2, doc2 = dump(h, d2, sc["files"])
+                    if oc2 != "ok" or any(st2) or doc2 != "ok":
+                        continue
+                    r = fault_case(h, ipso, base, sw, sc2, [(k, "eio")], len(sc2["script"]), ideal2, "cut%d_%d" % (oi, k))
+                    info_t["runs"] += 1
+                    info_t["cut_runs"] = info_t.get("cut_runs", 0) + 1
+                    ck.case(hashlib.sha1(("c14bcut" + sc["name"] + str(chains[k])).encode()).hexdigest() if r["injected"] else None)
+                    if any(x != 0 for x in r["statuses"]):
+                        info_t["reported"] += 1
+                    if r["problem"]:
+                        info_t["problems"] += 1
+                        ps["problems"] += 1
+                        fails.append({"level": "c14b", "scenario": sc2["name"], "backend": sc["backend"], "prep": sc["prep"], "script": sc2["script"],
+                                      "files": sc["files"], "faults": [[k, "eio"]], "injected": r["injected"], "problem": r["problem"],
+                                      "statuses": r["statuses"], "outcome": r["outcome"], "diff": r.get("diff"), "stderr": r["stderr"],
+                                      "stack": ["%s:%d->%s" % e for e in chains[k]], "row": list(tkey), "fault_op": sc["script"][oi]})
+                        break
         ps["wall_s"] = round(__import__("time").time() - t_sc, 1)
         stats["scenarios"][sc["name"]] = ps
         shutil.rmtree(sw, ignore_errors=True)
